@@ -383,8 +383,13 @@ func genAlignMatrix(r *rand.Rand, sp matSpec) align.SubstitutionMatrix {
 			m[[2]byte{x, y}] = v
 		}
 	}
+	uniform := r.IntN(4) == 0 // the same gap score for every symbol and both directions (the usual case in practice)
+	u := val()
 	for _, x := range sp.alpha {
 		g1, g2 := val(), val()
+		if uniform {
+			g1, g2 = u, u
+		}
 		if sp.gapSign < 0 {
 			g1, g2 = -math.Abs(g1), -math.Abs(g2)
 		}
